@@ -285,6 +285,70 @@ def c_side(repo, impl):
     return wr, protos, info, rows
 
 
+def documented_interfaces(repo):
+    """interface bodies that cgns_f.F90 only carries as COMMENTS (`!!$` lines): the documented kinds of the wrappers the module
+    does not declare.  Parsed leniently (a SUBROUTINE statement is continued while its parentheses are open; an argument that
+    is not declared -- `! void *data` -- becomes FAny)."""
+    raw = open(os.path.join(repo, "src", "cgns_f.F90"), errors="replace").read().split("\n")
+    doc, cur = [], None
+    for l in raw:
+        m = re.match(r"^\s*(?:!!\$)+(.*)$", l)
+        if not m:
+            continue
+        t = m.group(1)
+        t = re.sub(r"!.*$", "", t).rstrip()
+        if cur is not None:
+            cur += " " + t.strip().lstrip("&")
+            if cur.count("(") <= cur.count(")"):
+                doc.append(cur); cur = None
+            continue
+        if re.match(r"\s*SUBROUTINE\b", t, re.I) and t.count("(") > t.count(")"):
+            cur = t.rstrip("&")
+            continue
+        doc.append(t)
+    # a commented-out body counts as documentation only when it is well formed Fortran: `SUBROUTINE name(ident, ...)`, one
+    # `::` per declaration line; half-C remnants (`void *exponents` among the dummies, two declarations on a line) do not
+    malformed, cur_name, doc2 = set(), None, []
+    for l in doc:
+        m = re.match(r"(\s*SUBROUTINE\s+)(\w+)(.*)$", l, re.I)
+        if m:
+            cur_name = m.group(2).lower()
+            rest = re.sub(r"\bvoid\s*\*\s*", "", m.group(3))                    # `void *data` among the dummies: an undeclared dummy
+            am = re.match(r"\s*\(([^()]*)\)\s*(BIND\s*\(.*\))?\s*$", rest, re.I)
+            if not am or not all(re.fullmatch(r"\w+", a.strip()) for a in am.group(1).split(",")):
+                malformed.add(cur_name)
+            doc2.append(m.group(1) + m.group(2) + rest)
+            continue
+        if re.match(r"\s*END\s*SUBROUTINE", l, re.I):
+            cur_name = None
+        elif cur_name and l.strip():
+            if re.match(r"\s*void\b", l):                                        # `void *data,` : no declaration
+                continue
+            if re.match(r"\s*(IMPORT|IMPLICIT|USE)\b", l, re.I):
+                pass
+            elif l.count("::") != 1 or not re.match(r"\s*(INTEGER|REAL|CHARACTER|TYPE)\b", l, re.I):
+                malformed.add(cur_name)
+            else:
+                ent = l.split("::", 1)[1].strip().rstrip(",")
+                if not re.fullmatch(r"\w+(\s*\([\w\s,*:]*\))?(\s*,\s*\w+(\s*\([\w\s,*:]*\))?)*", ent):
+                    malformed.add(cur_name)
+                l = l.split("::", 1)[0] + ":: " + ent
+        doc2.append(l)
+    doc = doc2
+    text = "INTERFACE\n" + "\n".join(doc) + "\nEND INTERFACE\n"
+    ifaces, modprocs, problems = parse_module(text)
+    res = {"__malformed__": sorted(malformed)}
+    for p in ifaces:
+        if p["function"] or p["name"].lower() in malformed:
+            continue
+        args = []
+        for a in p["args"]:
+            args.append((a[0], "FAny" if a[1] == "FOther" and a[0].upper() not in p["decls"] else a[1], a[2], a[3], a[4]))
+        p["args"] = args
+        res.setdefault(p["name"].lower(), p)
+    return res
+
+
 def goto_term_tests(repo):
     """the condition under which cg_goto_fc1 / cg_gorel_fc1 (cg_ftoc.c) treat their label as "no pair" (n = 0), disjunct by
     disjunct.  -> {name: (cmp, blank, empty, text)}; a disjunct that is not recognised makes cmp CmpUnknown."""
@@ -331,6 +395,50 @@ def goto_term_tests(repo):
         else:
             cmp_ = "CmpUnknown"
         res[fn_] = (cmp_, blank, empty, cond)
+    return res
+
+
+def goto_blocks(pp_text):
+    """the executable part of the module procedures cg_goto_f / cg_gorel_f, statement by statement, as gstmt terms of
+    coq/FtocGoto.v: which optional argument guards a block, which UserDataName_k and which i_k it forwards to which C half."""
+    lines = logical_lines(pp_text)
+    res = {}
+    for name in ("cg_goto_f", "cg_gorel_f"):
+        try:
+            i = [k for k, l in enumerate(lines) if re.match(r"SUBROUTINE\s+%s\b" % name, l, re.I)][0]
+            j = [k for k, l in enumerate(lines) if re.match(r"END\s*SUBROUTINE\s+%s\b" % name, l, re.I)][0]
+        except IndexError:
+            res[name] = ['GOther "procedure not found"']; continue
+        body = lines[i + 1:j]
+        e = [k for k, l in enumerate(body) if re.match(r"END\s*INTERFACE\b", l, re.I)]
+        body = body[e[-1] + 1:] if e else body
+        out = []
+        for l in body:
+            c = re.sub(r"\s+", "", l).upper()
+            m = re.fullmatch(r"IF\(PRESENT\(I(\d+)\)\)THEN", c)
+            if m:
+                out.append("GIfPresent %s" % m.group(1)); continue
+            m = re.fullmatch(r"IF\(\.NOT\.PRESENT\(I(\d+)\)\)THEN", c)
+            if m:
+                out.append("GIfNotPresent %s" % m.group(1)); continue
+            if c == "ELSE":
+                out.append("GElse"); continue
+            if c == "ENDIF":
+                out.append("GEndIf"); continue
+            if c == "RETURN":
+                out.append("GReturn"); continue
+            if c in ("IF(IER.NE.0)RETURN", "IF(IER/=0)RETURN"):
+                out.append("GRetIfErr"); continue
+            m = re.fullmatch(r"IER=INT\(CG_GOTO_FC1\(INT\(FN,C_INT\),INT\(B,C_INT\),TRIM\(USERDATANAME(\d+)\)//C_NULL_CHAR,"
+                             r"(?:INT\(I(\d+),C_INT\)|(0)_C_INT)\)\)", c)
+            if m:
+                out.append("GCall CGoto %s %s" % (m.group(1), m.group(2) or "0")); continue
+            m = re.fullmatch(r"IER=INT\(CG_GOREL_FC1\(INT\(FN,C_INT\),TRIM\(USERDATANAME(\d+)\)//C_NULL_CHAR,"
+                             r"(?:INT\(I(\d+),C_INT\)|(0)_C_INT)\)\)", c)
+            if m:
+                out.append("GCall CGorel %s %s" % (m.group(1), m.group(2) or "0")); continue
+            out.append("GOther %s" % q(l[:120]))
+        res[name] = out
     return res
 
 
@@ -391,10 +499,22 @@ def translate(repo, impl, implf, pp_text=None):
             rows.append("ANoC %s %s %s" % (q(p["name"]), q(link), q(p["where"])))
     # wrappers of the two C files that the module does not declare: a Fortran caller reaches them through an IMPLICIT
     # interface (F77 convention) -- nothing to compare statically; they are what the driver programs exercise
+    docs = documented_interfaces(repo)
+    info["implicit_documented"], info["implicit_undocumented"] = [], []
+    info["comment_bodies_not_well_formed"] = [n for n in docs.pop("__malformed__", []) if (n + "_") in wr or n in {v[1] for v in wr.values()}]
     for link, (f, cname, ptys, pnames) in sorted(wr.items()):
         if link not in seen_links:
             info["wrappers_without_interface"].append(cname)
             rows.append("AImplicit %s %s %s" % (q(cname), q(link), coq_list(ptys)))
+            d = docs.get(cname.lower())
+            if d is not None:
+                info["implicit_documented"].append(cname)
+                fargs = ["(%s, %s)" % (a[1], "true" if a[2] else "false") for a in d["args"]]
+                rows.append("ADoc {| a_name := %s; a_where := %s; a_link := %s; a_bindc := false; a_function := false; a_variadic := false; "
+                            "a_fargs := %s;\n    a_ckind := CWrapper; a_cname := %s; a_cptys := %s |}" % (
+                                q(cname), q("comment"), q(link), coq_list(fargs), q(cname), coq_list(ptys)))
+            else:
+                info["implicit_undocumented"].append(cname)
     for pr in problems:
         rows.append("AUnparsed %s %s" % (q("cgns_f.F90"), q(pr[:200])))
     lines = ["(* GENERATED on every run by translators/c20f_iface.py from the current src/cgns_f.F90 (preprocessed with the",
@@ -413,6 +533,12 @@ def translate(repo, impl, implf, pp_text=None):
         lines.append("Definition %s_term : termtest := {| t_cmp := %s; t_blank := %s; t_empty := %s |}." % (
             k[3:], v[0], "true" if v[1] else "false", "true" if v[2] else "false"))
     lines.append("Definition goto_terms : list termtest := [goto_fc1_term; gorel_fc1_term].")
+    gb = goto_blocks(text)
+    info["goto_blocks"] = {k: {"statements": len(v), "unrecognised": [x for x in v if x.startswith("GOther")][:5]} for k, v in gb.items()}
+    lines.append("")
+    lines.append("(* the executable statements of the module procedures cg_goto_f / cg_gorel_f (cgns_f.F90) *)")
+    lines.append("Definition goto_f_stmts : list gstmt := [\n  %s\n]." % ";\n  ".join(gb["cg_goto_f"]))
+    lines.append("Definition gorel_f_stmts : list gstmt := [\n  %s\n]." % ";\n  ".join(gb["cg_gorel_f"]))
     out = "\n".join(lines) + "\n"
     info["rows"] = len(rows)
     return out, info, ifaces, modprocs, wr, protos
